@@ -10,4 +10,5 @@ CONSTANTS
   FixAdd = FALSE
   Depth = 5
   Loop = TRUE
+  AddGate = FALSE
 CHECK_DEADLOCK FALSE
